@@ -188,9 +188,16 @@ func (o *c12Op) action() pipeline.Action {
 			op.Query = c12MkVoR(*o.Query)
 		}
 		if o.Items != nil {
+			// an item that occurs twice in the list is ONE value referenced twice (the same Go object)
 			sl := pipeline.ValOrRefSlice{}
+			memo := map[c12VoR]*pipeline.ValOrRef{}
 			for _, it := range *o.Items {
-				sl = append(sl, c12MkVoR(it))
+				v, seen := memo[it]
+				if !seen {
+					v = c12MkVoR(it)
+					memo[it] = v
+				}
+				sl = append(sl, v)
 			}
 			op.Item = &sl
 		}
